@@ -72,6 +72,9 @@ func VerifC16Gate() {
 	}
 	vAssert(!done || (authorised && v >= 15004 && v < cur), "C16/update-completes-only-with-the-required-majority-and-a-supported-older-version")
 	vAssert(done || !(authorised && v >= lo && v < cur), "C16/update-from-a-supported-version-completes-with-the-required-majority")
+	// the same gate read as C03 reads it (this harness is also registered there): update is inert without the
+	// documented majority — the committee's, for NeoFS and Processing the designated NeoFS Alphabet's
+	vAssert(!(done || vEffects()) || authorised, "C03/update-needs-the-documented-majority")
 	vRequire(done, "update-completed")
 	vCoverIf(!done && authorised, "update-refused-for-its-version")
 	if !done {
